@@ -682,7 +682,7 @@ func c12CloneFiles(c *c12Case) *c12Case {
 func TestVerifC12_EnumCrash(t *testing.T) {
 	db := c12Duck(t)
 	seed := c12Seed()
-	layouts := verifkit.Scale(6, 12)
+	layouts := verifkit.Scale(6, 6)
 	complete := true
 	for li := 0; li < layouts; li++ {
 		base := rapid.Custom(func(rt *rapid.T) *c12Case { return genC12Case(rt, li%5 == 0) }).Example(seed*101 + li)
@@ -714,7 +714,7 @@ func TestVerifC12_EnumCrash(t *testing.T) {
 func TestVerifC12_EnumFail(t *testing.T) {
 	db := c12Duck(t)
 	seed := c12Seed()
-	layouts := verifkit.Scale(3, 8)
+	layouts := verifkit.Scale(3, 4)
 	for li := 0; li < layouts; li++ {
 		base := rapid.Custom(func(rt *rapid.T) *c12Case { return genC12Case(rt, false) }).Example(seed*211 + li)
 		keys := []string{}
